@@ -17,15 +17,19 @@ C == Cases[tid]
 Flag(cond, name) == IF cond THEN {} ELSE {name}
 Tol == 3
 Abs(x) == IF x < 0 THEN 0 - x ELSE x
+(* a group carries one measure table per association measure that was evaluated (g.mrefs, g.mcodes); *)
+(* the list is ranked by the last one (the library sorts by the reversed list of measures)           *)
 GroupClauses(g) ==
-  LET feats == Rng(g.feats)  sel == g.sel IN
+  LET feats == Rng(g.feats)  sel == g.sel  nm == Len(g.mrefs)  prim == g.mrefs[nm] IN
      Flag(C14Distinct(sel, feats), "C14_not_distinct_inputs")
-  \cup Flag(C14AllDefined(C.mref, sel), "C14_undefined_feature_returned")
-  \cup Flag(C14Ordered(C.mref, sel, Tol), "C14_not_in_decreasing_association")
-  \cup Flag(C14AtMost(sel, g.nbest), "C14_more_than_n_best")
-  \cup Flag(C14Uncorrelated(C.a, sel, g.thr, Tol), "C14_returned_features_too_associated")
-  \cup Flag(C14Omitted(C.mref, C.a, sel, feats, g.thr, g.nbest, Tol), "C14_omitted_without_reason")
-  \cup Flag(\A f \in feats : C.mcode[f] = UNDEF \/ C.mref[f] = UNDEF \/ Abs(C.mcode[f] - C.mref[f]) <= Tol + C.mref[f] \div 100000,
+  \cup Flag(\A i \in DOMAIN sel : \E k \in 1..nm : Defined(g.mrefs[k], sel[i]), "C14_undefined_feature_returned")
+  \cup Flag(C14Ordered(prim, sel, Tol), "C14_not_in_decreasing_association")
+  \cup Flag(Len(sel) <= g.nbest * nm, "C14_more_than_n_best")
+  \cup Flag(C14Uncorrelated(C.a, sel, g.thr, Tol) \/ nm > 1, "C14_returned_features_too_associated")
+  \cup Flag(\A k \in 1..nm : C14Omitted(g.mrefs[k], C.a, sel, feats, g.thr, g.nbest, Tol), "C14_omitted_without_reason")
+  \cup Flag(\A k \in 1..nm : \A f \in feats :
+               g.mcodes[k][f] = UNDEF \/ g.mrefs[k][f] = UNDEF
+               \/ Abs(g.mcodes[k][f] - g.mrefs[k][f]) <= Tol + g.mrefs[k][f] \div 100000,
             "C14_measure_differs_from_recomputation")
 Clauses ==
   IF C.outcome # 0 THEN {"C14_select_raised"}
@@ -35,13 +39,14 @@ Clauses ==
 (* known finding F08: the default RegressionSelector measure (correlation distance 1 - r) is treated as *)
 (* undefined when it is exactly 0: every unexplained omission / missing copy of the target is such a   *)
 (* feature (recomputed distance ~ 0, no value reported by the library)                                 *)
-ZeroDist(f) == C.mref[f] # UNDEF /\ C.mref[f] <= Tol /\ C.mcode[f] = UNDEF
+ZeroDistIn(g, f) == g.mrefs[1][f] # UNDEF /\ g.mrefs[1][f] <= Tol /\ g.mcodes[1][f] = UNDEF
+ZeroDist(f) == \E i \in DOMAIN C.groups : f \in Rng(C.groups[i].feats) /\ ZeroDistIn(C.groups[i], f)
 ExplainedByZeroDistance ==
   /\ C.outcome = 0
   /\ \A i \in DOMAIN C.groups :
        LET g == C.groups[i] IN
        \A f \in Rng(g.feats) \ Rng(g.sel) :
-          C14Reason(C.mref, C.a, g.sel, Rng(g.feats), g.thr, g.nbest, Tol, f) \/ ZeroDist(f)
+          (\A k \in 1..Len(g.mrefs) : C14Reason(g.mrefs[k], C.a, g.sel, Rng(g.feats), g.thr, g.nbest, Tol, f)) \/ ZeroDist(f)
   /\ \A f \in Rng(C.must) : (f \in UNION {Rng(C.groups[i].sel) : i \in DOMAIN C.groups}) \/ ZeroDist(f)
 Init == tid \in 1..Len(Cases) /\ done = FALSE
 Judge == /\ ~done /\ done' = PrintT(<<"VERDICT", tid, Clauses, [zero_distance |-> ExplainedByZeroDistance]>>) /\ UNCHANGED tid
